@@ -115,11 +115,15 @@ def _mentions(e, x):
 
 
 class RCanon(iteralg.Canon):
-    """Iterator algebra + map / cloned / copied stages (closures applied)."""
+    """Iterator algebra + map / cloned / copied / filter / take / flat_map stages (closures applied) and iterator-returning helpers.
+
+    `filters[L]` collects the predicates an element of loop L has passed (`filter`); a `flat_map` introduces a nested position
+    ('pos', ('in', L)) whose extents are recorded under that id."""
 
     def __init__(self, db, fn=None, rec=None):
         super().__init__(fn, rec)
         self.db = db
+        self.filters = {}
 
     def elem_of(self, S, L, pos=None):
         S0 = norm(S)
@@ -138,6 +142,40 @@ class RCanon(iteralg.Canon):
                 if inner[0] == 'call' and inner[1].endswith('Iterator::collect') and len(inner[2]) == 1:
                     # a pipeline collected into a Vec and iterated again yields the same elements in the same order
                     return self.elem_of(inner[2][0], L, pos)
+            if name.endswith('Iterator::filter') and len(S1[2]) == 2:
+                r = self.elem_of(S1[2][0], L, pos)
+                if r is None:
+                    return None
+                cond = apply_fn(self.db, S1[2][1], [r[0]])
+                if cond is None:
+                    return None
+                self.filters.setdefault(L, []).append(self.canon(cond))
+                return r
+            if name.endswith('Iterator::take') and len(S1[2]) == 2:
+                r = self.elem_of(S1[2][0], L, pos)
+                if r is None:
+                    return None
+                return r[0], r[1] + [('sub', self.canon(S1[2][1]), ('k', 0))]        # a zip-like minimum with the range 0..n
+            if name.endswith('Iterator::flat_map') and len(S1[2]) == 2:
+                outer = self.elem_of(S1[2][0], L, pos)
+                if outer is None:
+                    return None
+                inner_it = apply_fn(self.db, S1[2][1], [outer[0]])
+                if inner_it is None:
+                    return None
+                Li = ('in', L)
+                inner = self.elem_of(inner_it, Li)
+                if inner is None:
+                    return None
+                self.extents[Li] = inner[1]
+                return inner[0], outer[1]
+            if name.startswith(('lightmotif', '<lightmotif')) and self.db is not None:
+                # a private helper that returns an iterator (`fn cells(&self) -> impl Iterator<..>`): the iterator it builds, in our terms
+                cands = [g for g in self.db.by_short.get(name, []) if g.kind != 'Closure' and not g.promoted_of]
+                if len(cands) == 1 and 'Iterator' in (cands[0].raw.get('sig') or ''):
+                    body = apply_fn(self.db, ('fnitem', name, cands[0].path), list(S1[2]))
+                    if body is not None and body != S1:
+                        return self.elem_of(body, L, pos)
             if name.endswith('Iterator::map') and len(S1[2]) == 2:
                 r = self.elem_of(S1[2][0], L, pos)
                 if r is None:
@@ -167,31 +205,45 @@ def of_expr(C, e):
             r['unwrapped'] = True
             return r
         return None
+    if e[0] == 'fld' and str(e[2]) == '0' and e[1][0] == 'down' and e[1][2] == 'Some':
+        r = try_fold_view(C, e[1][1])
+        if r is not None:
+            return r
     if e[0] != 'call':
         return None
     name = e[1]
     L = _fresh()
+    if name.endswith('Iterator::count') and len(e[2]) == 1:
+        r = C.elem_of(e[2][0], L)
+        if r is None:
+            return None
+        C.extents[L] = r[1]
+        return dict(op='count', init=('k', 0), term=r[0], L=L, extents=r[1], how='count', filters=list(C.filters.get(L, [])))
     if name.endswith('Iterator::sum') and len(e[2]) == 1:
         r = C.elem_of(e[2][0], L)
         if r is None:
             return None
+        C.extents[L] = r[1]
         return dict(op='add', init=('k', 0), term=r[0], L=L, extents=r[1], how='sum')
     for suf, op in (('Iterator::min_by', 'min_by'), ('Iterator::max_by', 'max_by')):
         if name.endswith(suf) and len(e[2]) == 2:
             r = C.elem_of(e[2][0], L)
             if r is None:
                 return None
+            C.extents[L] = r[1]
             return dict(op=op, init=None, term=r[0], L=L, extents=r[1], how=op, cmp=e[2][1])
     for suf, op in (('Iterator::min', 'min'), ('Iterator::max', 'max')):
         if name.endswith(suf) and len(e[2]) == 1:
             r = C.elem_of(e[2][0], L)
             if r is None:
                 return None
+            C.extents[L] = r[1]
             return dict(op=op, init=None, term=r[0], L=L, extents=r[1], how=op)
     if name.endswith('Iterator::fold') and len(e[2]) == 3:
         r = C.elem_of(e[2][0], L)
         if r is None:
             return None
+        C.extents[L] = r[1]
         acc = ('acc', L)
         body = apply_fn(C.db, e[2][2], [acc, r[0]])
         if body is None:
@@ -202,6 +254,38 @@ def of_expr(C, e):
             return None
         return dict(op=op_term[0], init=norm(e[2][1]), term=op_term[1], L=L, extents=r[1], how='fold')
     return None
+
+
+def try_fold_view(C, e):
+    """`it.try_fold(init, |acc, x| if p(x) { Some(acc + t(x)) } else { None })`: the sum of t over all elements, defined (Some) exactly when
+    every element satisfies p.  Returns the reduction dict with `cond` = p in canonical form (the payload of the Some result), or None."""
+    e = norm(e)
+    if not (e[0] == 'call' and e[1].endswith('Iterator::try_fold') and len(e[2]) == 3):
+        return None
+    L = _fresh()
+    r = C.elem_of(e[2][0], L)
+    if r is None:
+        return None
+    C.extents[L] = r[1]
+    acc = ('acc', L)
+    body = apply_fn(C.db, e[2][2], [acc, r[0]])
+    if body is None or body[0] != 'ite':
+        return None
+    cond, a_, b_ = body[1], C.canon(body[2]), C.canon(body[3])
+    some, none = (a_, b_)
+    flip = False
+    if a_[0] == 'agg' and not a_[2]:
+        some, none, flip = b_, a_, True
+    if not (some[0] == 'agg' and len(some[2]) == 1 and none[0] == 'agg' and not none[2]):
+        return None
+    ot = _accumulate(some[2][0], acc)
+    if ot is None:
+        return None
+    from . import guards as G
+    alts = G.expr_alternatives(C.canon(cond), not flip)
+    if len(alts) != 1:
+        return None
+    return dict(op=ot[0], init=norm(e[2][1]), term=ot[1], L=L, extents=r[1], how='try_fold', cond=alts[0])
 
 
 def _accumulate(body, acc):
@@ -299,6 +383,20 @@ def forall_facts(db, f, R, C, block):
     from . import guards as G
     out = []
     for r in G.relations(f, R, block):
+        if r[0] == 'switch' and isinstance(r[1], tuple) and r[1][0] == 'discr':
+            # `it.try_fold(..)` returned Some (directly, or seen through `.ok_or(..)?`): its predicate held for every element
+            x, want = norm(r[1][1]), None
+            if x[0] == 'call' and x[1].endswith('Try::branch') and len(x[2]) == 1 and r[2] == ('eq', 0):
+                x = norm(x[2][0])
+                if x[0] == 'call' and x[1].endswith(('Option::ok_or', 'Option::ok_or_else')) and x[2]:
+                    x, want = norm(x[2][0]), True
+            elif r[2] == ('eq', 1):
+                want = True
+            tf = try_fold_view(C, x) if want else None
+            if tf is not None:
+                for q in tf['cond']:
+                    out.append(dict(rel=tuple(q[:-1]) if len(q) > 3 else q, L=tf['L'], pos={tf['L']}, extents={tf['L']: tf['extents']}, how='try_fold'))
+            continue
         if r[0] == 'false' and isinstance(r[1], tuple) and r[1][0] == 'call' and r[1][1].endswith('Iterator::any') and len(r[1][2]) == 2:
             # !it.any(p)  =  for every element, !p
             L = _fresh()
@@ -394,3 +492,53 @@ def sum_view(db, f, R, C, e, block):
             r['extents'] = C.extents.get(r['L'])
             return r
     return None
+
+
+def closure_env(db, fv, args):
+    """(closure body fn, substitution) for applying the closure value fv to recovered argument expressions."""
+    v = fn_value(fv)
+    if v is None or v[0] != 'closure':
+        return None, None
+    g = _lookup(db, v[1])
+    if g is None:
+        return None, None
+    env = {}
+    for i, a in enumerate(args):
+        env[('p', i + 2)] = a
+    names = g.raw.get('upvars') or []
+    for i, c in enumerate(v[2]):
+        env[('fld', ('p', 1), str(i))] = c
+        env[('fld', ('p', 1), i)] = c
+        if i < len(names):
+            nm = names[i].get('name') if isinstance(names[i], dict) else names[i]
+            if isinstance(nm, str):
+                env[('fld', ('p', 1), nm)] = c
+    return g, env
+
+
+def foreach_stores(db, f, R, C):
+    """Stores performed by the closure of every `it.for_each(|x| ..)` in f, expressed in f's terms with x = the element of `it`:
+    list of dict(target, value, L, extents, span, block) in canonical form — the same effects a `for x in it { .. }` loop would show."""
+    out = []
+    for bi, t in f.calls():
+        if not (f.callee_short(t) or '').endswith('Iterator::for_each') or len(t['args']) != 2:
+            continue
+        e = norm(R.call(t))
+        L = _fresh()
+        # the type of the iterator for_each is called on (its Self type) tells whether a component is a plain slice iterator
+        if not hasattr(C, 'pipe_types'):
+            C.pipe_types = {}
+        C.pipe_types[L] = t.get('callee_full') or ''
+        el = C.elem_of(e[2][0], L)
+        if el is None:
+            continue
+        C.extents[L] = el[1]
+        g, env = closure_env(db, e[2][1], [el[0]])
+        if g is None:
+            continue
+        Rg = X.Rec(g)
+        for s_ in X.stores(g, Rg):
+            tg = C.canon(_subst(norm(s_['target']), env))
+            vl = C.canon(_subst(norm(s_['value']), env))
+            out.append(dict(target=tg, value=vl, L=L, extents=el[1], span=s_.get('span'), block=bi, raw=s_))
+    return out
